@@ -331,7 +331,30 @@ func runStressOnce(sp *StressSpec) *verr {
 	if coalesced.Load() != dupSum.Load() {
 		return newVerr("dup-count", "%d insertions coalesced, duplicate counts delivered sum to %d", coalesced.Load(), dupSum.Load())
 	}
-	q.Close()
+	// Close comes from several goroutines at once, as in the Subscribe handler (the walk goroutine
+	// and the handler's deferred Close): closing is idempotent under any interleaving.
+	closers := 1 + sp.Producers%3
+	var cwg sync.WaitGroup
+	var closePanic atomic.Value
+	startClose := make(chan struct{})
+	for i := 0; i < closers; i++ {
+		cwg.Add(1)
+		go func() {
+			defer cwg.Done()
+			defer func() {
+				if r := recover(); r != nil {
+					closePanic.Store(fmt.Sprint(r))
+				}
+			}()
+			<-startClose
+			q.Close()
+		}()
+	}
+	close(startClose)
+	cwg.Wait()
+	if p := closePanic.Load(); p != nil {
+		return newVerr("panic", "%d concurrent Close calls: panic: %v", closers, p)
+	}
 	synctest.Wait()
 	select {
 	case err := <-consumerDone:
